@@ -13,7 +13,17 @@ func init() {
 			ruleOmit0(c)
 			ruleSliceWrap(c)
 			rulePendingKey(c)
+			ruleRegDescriptor(c)
+			ruleInternKey(c)
+			ruleSetLen(c)
 			rulePtrTag(c)
+			ruleEntryPresence(c)
+			ruleEfaceDirect(c)
+			// nested values are framed by the size their codec reports: size = appended length is a
+			// necessary condition of the round trip (the reader slices the body by that length)
+			ruleSizeLaw(c)
+			ruleFrame(c)
+			ruleEmitLemmas(c)
 		},
 	})
 }
